@@ -24,6 +24,7 @@ type diag struct {
 	file  string
 	kind  string
 	names string
+	full  string // full path of the edited file (not part of the comparison)
 }
 
 func (d diag) String() string { return d.file + " | " + d.kind + " | " + d.names }
@@ -57,7 +58,7 @@ func parseDiag(file, msg string) (diag, bool) {
 	if len(names) < keep {
 		return diag{}, false
 	}
-	return diag{file, kind, strings.Join(names[:keep], ",")}, true
+	return diag{file, kind, strings.Join(names[:keep], ","), ""}, true
 }
 
 type c20Edit struct {
@@ -141,7 +142,7 @@ func applyEdits(p *idlm.Program, r *core.Rand, n int) []c20Edit {
 				svcs = append(svcs, d)
 			}
 		}
-		switch op := r.Intn(13); {
+		switch op := r.Intn(14); {
 		case op == 0 && len(svcs) > 0: // remove a service nobody extends
 			s := svcs[r.Intn(len(svcs))]
 			if isNew(s.Name) || isNew(f.Path) {
@@ -158,7 +159,7 @@ func applyEdits(p *idlm.Program, r *core.Rand, n int) []c20Edit {
 			}
 			f.Defs = nd
 			touched[f.Path+"/"+s.Name] = true
-			out = append(out, c20Edit{"remove service " + s.Name + " from " + f.Path, []diag{{filepath.Base(f.Path), "service-removed", s.Name}}})
+			out = append(out, c20Edit{"remove service " + s.Name + " from " + f.Path, []diag{{filepath.Base(f.Path), "service-removed", s.Name, f.Path}}})
 		case op == 1 && len(svcs) > 0: // remove a method
 			s := svcs[r.Intn(len(svcs))]
 			if len(s.Funcs) == 0 || touched[f.Path+"/"+s.Name] || isNew(s.Name) || isNew(f.Path) {
@@ -171,7 +172,7 @@ func applyEdits(p *idlm.Program, r *core.Rand, n int) []c20Edit {
 			}
 			s.Funcs = append(append([]*idlm.Function{}, s.Funcs[:i]...), s.Funcs[i+1:]...)
 			touched["method-of/"+f.Path+"/"+s.Name] = true
-			out = append(out, c20Edit{"remove method " + s.Name + "." + fn.Name, []diag{{f.Path, "method-removed", fn.Name + "," + s.Name}}})
+			out = append(out, c20Edit{"remove method " + s.Name + "." + fn.Name, []diag{{f.Path, "method-removed", fn.Name + "," + s.Name, f.Path}}})
 		case op == 2 && len(structs) > 0: // add a required field
 			s := structs[r.Intn(len(structs))]
 			if s.Kind == idlm.KUnion || maxFieldID(s) > 32000 || touched[f.Path+"/"+s.Name] || isNew(s.Name) || isNew(f.Path) {
@@ -183,7 +184,7 @@ func applyEdits(p *idlm.Program, r *core.Rand, n int) []c20Edit {
 			pos := r.Intn(len(s.Fields) + 1)
 			s.Fields = append(s.Fields[:pos], append([]*idlm.Field{nf}, s.Fields[pos:]...)...)
 			touched["edited/"+f.Path+"/"+s.Name] = true
-			out = append(out, c20Edit{"add required field " + s.Name + "." + nf.Name, []diag{{f.Path, "required-field-added", nf.Name + "," + s.Name}}})
+			out = append(out, c20Edit{"add required field " + s.Name + "." + nf.Name, []diag{{f.Path, "required-field-added", nf.Name + "," + s.Name, f.Path}}})
 		case op == 3 && len(structs) > 0: // optional -> required
 			s := structs[r.Intn(len(structs))]
 			if s.Kind == idlm.KUnion || len(s.Fields) == 0 {
@@ -208,7 +209,7 @@ func applyEdits(p *idlm.Program, r *core.Rand, n int) []c20Edit {
 			replaceField(s, fl, &nf)
 			touched[key] = true
 			touched["edited/"+f.Path+"/"+s.Name] = true
-			out = append(out, c20Edit{"optional to required " + s.Name + "." + fl.Name, []diag{{f.Path, "optional-to-required", fl.Name + "," + s.Name}}})
+			out = append(out, c20Edit{"optional to required " + s.Name + "." + fl.Name, []diag{{f.Path, "optional-to-required", fl.Name + "," + s.Name, f.Path}}})
 		case op == 4 && len(structs) > 0: // change a field's type name
 			s := structs[r.Intn(len(structs))]
 			if len(s.Fields) == 0 {
@@ -234,7 +235,30 @@ func applyEdits(p *idlm.Program, r *core.Rand, n int) []c20Edit {
 			replaceField(s, fl, &nf)
 			touched[key] = true
 			touched["edited/"+f.Path+"/"+s.Name] = true
-			out = append(out, c20Edit{fmt.Sprintf("change type of %s.%s from %s to %s", s.Name, fl.Name, thriftName(fl.Type), thriftName(nt)), []diag{{f.Path, "field-type-changed", fl.Name + "," + s.Name}}})
+			out = append(out, c20Edit{fmt.Sprintf("change type of %s.%s from %s to %s", s.Name, fl.Name, thriftName(fl.Type), thriftName(nt)), []diag{{f.Path, "field-type-changed", fl.Name + "," + s.Name, f.Path}}})
+		case op == 11 && len(structs) > 0: // change a field's type NAME to a new alias of the very same type
+			s := structs[r.Intn(len(structs))]
+			if len(s.Fields) == 0 {
+				continue
+			}
+			fl := s.Fields[r.Intn(len(s.Fields))]
+			key := f.Path + "/" + s.Name + "/" + fl.Name
+			if isNew(s.Name) || isNew(fl.Name) || isNew(f.Path) || fl.Default != nil || touched[key] || touched[f.Path+"/"+s.Name] {
+				continue
+			}
+			if fl.Type.Kind == idlm.TNamed {
+				if _, isStruct := fl.Type.Root().Target.(*idlm.Struct); isStruct {
+					continue // keep required-field escapability reasoning simple
+				}
+			}
+			td := &idlm.Typedef{Name: fresh("Alias"), Type: fl.Type}
+			f.Defs = append(append([]idlm.Def{}, f.Defs...), td)
+			nf := *fl
+			nf.Type = &idlm.TypeRef{Kind: idlm.TNamed, Name: td.Name, Target: td, TFile: f}
+			replaceField(s, fl, &nf)
+			touched[key] = true
+			touched["edited/"+f.Path+"/"+s.Name] = true
+			out = append(out, c20Edit{fmt.Sprintf("change type name of %s.%s from %s to its new alias %s", s.Name, fl.Name, thriftName(fl.Type), td.Name), []diag{{f.Path, "field-type-changed", fl.Name + "," + s.Name, f.Path}}})
 		case op == 5 && len(structs) > 0: // compatible: add an optional field
 			s := structs[r.Intn(len(structs))]
 			if maxFieldID(s) > 32000 {
@@ -414,7 +438,22 @@ func runC20(r *core.Run, bin string, i int) {
 		}
 		return m
 	}
+	// a byte-identical twin of one file under another name, in both versions:
+	// identical definitions edited identically in two files of one commit
+	var twinOf *idlm.File
+	twinPath := ""
+	if rng.Chance(1, 3) {
+		twinOf = p.Files[rng.Intn(len(p.Files))]
+		twinPath = filepath.Dir(twinOf.Path) + "/twin_" + filepath.Base(twinOf.Path)
+	}
+	writeTwin := func(m map[string]string) {
+		if twinOf != nil {
+			os.WriteFile(filepath.Join(dir, twinPath), []byte(m[twinOf.Path]), 0o644)
+			m[twinPath] = m[twinOf.Path]
+		}
+	}
 	v1 := write()
+	writeTwin(v1)
 	if err := gitCmd(dir, "init", "-q"); err != nil {
 		r.Inconclusive("%v", err)
 		return
@@ -430,6 +469,7 @@ func runC20(r *core.Run, bin string, i int) {
 	}
 	edits := applyEdits(p, rng, nEdits*2)
 	v2 := write()
+	writeTwin(v2)
 	// files deleted from the model do not occur; make the commit even when nothing changed
 	gitCmd(dir, "add", "-A")
 	if err := gitCmd(dir, "commit", "-q", "--allow-empty", "-m", "v2"); err != nil {
@@ -442,6 +482,14 @@ func runC20(r *core.Run, bin string, i int) {
 		descs = append(descs, e.desc)
 		for _, d := range e.exp {
 			want = append(want, d.String())
+			if twinOf != nil && (d.file == twinOf.Path || d.kind == "service-removed" && d.full == twinOf.Path) {
+				t := d
+				t.file = twinPath
+				if d.kind == "service-removed" {
+					t.file = filepath.Base(twinPath)
+				}
+				want = append(want, t.String())
+			}
 		}
 	}
 	sort.Strings(want)
